@@ -2,15 +2,18 @@
 
 proof:          lean/PdshVerif/Props/C12.lean (receiver model of pcp_server.c:_sink as a byte automaton with an
                 explicit directory stack over a finite-map file system; confinement invariant for the receiver
-                with the scp name rule, decided escape witness for the unchanged one, frame property, reader
-                indices in bounds, every level unwound on every stream, malformed records answered)
+                with a name rule (the narrow repair "no `/`, not `..`" or the scp rule; the rule the code has is
+                probed), decided escape witness for the code as found, the repair changes nothing else, reader
+                indices in bounds, every level unwound on every stream, malformed/truncated input answered)
 correspondence: the REAL pcp_server() (ASan/UBSan harness, forked + chroot'ed per case) and, in the thorough tier,
-                the scratch-built `pdcp -z DEST` binary, fed generated hostile streams; reply classes and the
-                complete file system below the jail root are compared with `pdshmodel pcp sink`
+                the scratch-built `pdcp -z DEST` binary, fed generated hostile streams, about a tenth of them
+                under a file size limit (write faults); reply classes and the complete file system below the
+                jail root are compared with `pdshmodel pcp sink`
 oracle:         snapshot of the jail (destination AND everything around it) before/after: every created or
                 modified path must lie beneath the canonical destination (`pdshmodel pcp spec12`); a stream that
-                violates the record grammar must be answered with at least one error record; no crash, no
-                sanitizer report, no hang
+                violates the record grammar must be answered with at least one error record; after a write
+                fault the files that fit are intact and the failure is reported; no crash, no sanitizer
+                report, no hang
 """
 import os
 import re
@@ -52,7 +55,7 @@ def read_const(name):
     return int(re.search(r"def %s : Nat := (\d+)" % name, txt).group(1))
 
 
-def jail_entries(prepop, destmode):
+def jail_entries(prepop, destmode, bigold=False):
     e = [Ent(b"", "d", 0o755, OLD), Ent(b"o", "d", 0o755, OLD + 1), Ent(b"o/top", "f", 0o644, OLD + 2, b"topdata"),
          Ent(b"o/w", "d", 0o755, OLD + 3), Ent(b"o/w/victim", "f", 0o600, OLD + 4, b"victimdata"),
          Ent(b"o/w/vdir", "d", 0o700, OLD + 5), Ent(b"o/w/vdir/inner", "f", 0o644, OLD + 6, b"in"),
@@ -60,6 +63,8 @@ def jail_entries(prepop, destmode):
     if prepop:
         e += [Ent(b"o/w/dest/sub", "d", 0o755, OLD + 8), Ent(b"o/w/dest/old", "f", 0o640, OLD + 9, b"0123456789" * 3),
               Ent(b"o/w/dest/sub/deep", "f", 0o644, OLD + 10, b"deepdata")]
+    if bigold:
+        e.append(Ent(b"o/w/dest/bigold", "f", 0o644, OLD + 11, b"O" * 60000))
     return e
 
 
@@ -200,13 +205,43 @@ def gen_stream(rng):
 
 def gen_case(rng):
     dest = rng.choices([d for d, _ in DESTS], [w for _, w in DESTS])[0]
+    if rng.random() < 0.10:
+        return gen_fault_case(rng)
     return dict(stream=gen_stream(rng), dest=dest, p=rng.choice([0, 0, 1]), y=rng.choice([0, 0, 0, 1]),
                 um=rng.choice([0o22, 0o22, 0o77, 0, 0o27]), fd=rng.choice([0, 0, 1]),
-                prepop=rng.random() < 0.7, destmode=rng.choice([0o755, 0o755, 0o755, 0o2775, 0o700, 0o1777]))
+                prepop=rng.random() < 0.7, destmode=rng.choice([0o755, 0o755, 0o755, 0o2775, 0o700, 0o1777]),
+                fsz=rng.choice([0] * 12 + [8192, 100, 20000]), bigold=False, files=None)
+
+
+FSIZES = [8192, 16384, 12000, 24576, 20000, 1, 40000]
+
+
+def gen_fault_case(rng):
+    """write faults: the receiver runs with a file size limit (RLIMIT_FSIZE, SIGXFSZ ignored -- the same failure as
+    a full disk or an exceeded quota); a well-formed sequence of plainly named files, some larger than the limit with
+    several transfer blocks still to come after the failing write, followed by files that fit"""
+    fsz = rng.choice(FSIZES)
+    p = rng.choice([0, 0, 1])
+    files, stream = [], b""
+    names = [b"f%d" % i for i in range(6)] + [b"bigold", b"old"]
+    rng.shuffle(names)
+    for nm in names[:rng.choice([2, 3, 4, 5])]:
+        n = rng.choice([0, 100, 8192, 8193, 16384, 20000, 24577, 40000, 70000, fsz, fsz + 1, fsz + 3 * 8192])
+        data = bytes([65 + len(files)]) * n
+        if p and rng.random() < 0.7:
+            stream += b"T%d 0 %d 0\n" % (1200000000 + len(files), 1200000005)
+        stream += b"C%04o %d %s\n" % (rng.choice([0o644, 0o600, 0o755]), n, nm) + data + b"\0"
+        files.append((nm, n, data))
+    if rng.random() < 0.15 and stream:
+        stream = stream[:rng.randrange(len(stream))]
+        files = None                               # truncated: only the generic oracles apply
+    return dict(stream=stream, dest=b"dest", p=p, y=rng.choice([0, 1]), um=0o22, fd=rng.choice([0, 1]),
+                prepop=rng.random() < 0.5, destmode=0o755, fsz=fsz, bigold=rng.random() < 0.5, files=files)
 
 
 def C(stream, **kw):
-    d = dict(stream=stream, dest=b"dest", p=0, y=0, um=0o22, fd=0, prepop=True, destmode=0o755)
+    d = dict(stream=stream, dest=b"dest", p=0, y=0, um=0o22, fd=0, prepop=True, destmode=0o755, fsz=0, bigold=False,
+             files=None)
     d.update(kw)
     return d
 
@@ -235,18 +270,26 @@ CORPUS = [
     C(b"C0644 1 a\nA\1"),
     C(b"C0644 0 " + b"L" * 256 + b"\n\0"),
     C(b"C0644 0 " + b"sub/" * 1020 + b"x\n\0"),
+    # write faults (seeded change C12-2: after a failed write the buffer pointer must still be reset)
+    C(b"C0644 65536 big\n" + b"Z" * 65536 + b"\0C0644 6 small\nhello\n\0", fsz=16384,
+      files=[(b"big", 65536, b"Z" * 65536), (b"small", 6, b"hello\n")]),
+    C(b"C0644 40000 bigold\n" + b"N" * 40000 + b"\0C0644 2 after\nok\0", fsz=12000, bigold=True,
+      files=[(b"bigold", 40000, b"N" * 40000), (b"after", 2, b"ok")]),
+    C(b"T1200000000 0 1200000000 0\nC0644 30000 f\n" + b"q" * 30000 + b"\0T1200000001 0 1200000001 0\nC0600 3 g\nabc\0",
+      fsz=8192, p=1, files=[(b"f", 30000, b"q" * 30000), (b"g", 3, b"abc")]),
 ]
 
 
 # --------------------------------------------------------------------------------------- running
 def op_line(jail, c):
-    return "sink %s /%s %s %d %d %o %d %s" % (jail, CWD.decode(), hx(c["dest"]), c["p"], c["y"], c["um"], c["fd"],
-                                              hx(c["stream"]))
+    return "sink %s /%s %s %d %d %o %d %d %s" % (jail, CWD.decode(), hx(c["dest"]), c["p"], c["y"], c["um"], c["fd"],
+                                                 c.get("fsz", 0), hx(c["stream"]))
 
 
-def model_line(c, ents, cnt, repaired):
-    return "sink %d %d %o %d %d %s %s %s %s" % (c["p"], c["y"], c["um"], cnt, repaired, hx(CWD), hx(c["dest"]),
-                                                hx(c["stream"]), " ".join(e.token() for e in ents))
+def model_line(c, ents, cnt, var):
+    return "sink %d %d %o %d %d %d %d %s %s %s %s" % (c["p"], c["y"], c["um"], cnt, var["rule"], var["dch"],
+                                                      c.get("fsz", 0), hx(CWD), hx(c["dest"]), hx(c["stream"]),
+                                                      " ".join(e.token() for e in ents))
 
 
 _CAND = re.compile(rb"[CD][0-7]{4} \d* ([^\n\0]*)")
@@ -263,17 +306,19 @@ def escape_signature(stream):
 def case_json(c):
     return dict(stream_hex=c["stream"].hex(), stream_text=c["stream"][:200].decode("latin-1"),
                 dest=c["dest"].decode("latin-1"), cwd="/" + CWD.decode(), preserve=c["p"], target_is_dir=c["y"],
-                umask="%o" % c["um"], fdmode=c["fd"], prepopulated=c["prepop"], destmode="%o" % c["destmode"])
+                umask="%o" % c["um"], fdmode=c["fd"], prepopulated=c["prepop"], destmode="%o" % c["destmode"],
+                file_size_limit=c.get("fsz", 0), bigold=c.get("bigold", False),
+                files=[[n.decode("latin-1"), sz] for n, sz, _ in c["files"]] if c.get("files") else None)
 
 
-def run_cases(ctx, exe, cases, cnt, repaired, cov, dist, distinct, tag="pcp_server()"):
+def run_cases(ctx, exe, cases, cnt, var, cov, dist, distinct, tag="pcp_server()"):
     """in-process variant: real pcp_server() in a chroot'ed child of the sanitizer harness"""
     base = os.path.join(ctx.scratch, "jails")
     shutil.rmtree(base, ignore_errors=True)
     os.makedirs(base)
     jails, ents_l = [], []
     for k, c in enumerate(cases):
-        ents = jail_entries(c["prepop"], c["destmode"])
+        ents = jail_entries(c["prepop"], c["destmode"], c.get("bigold", False))
         j = os.path.join(base, "j%d" % k)
         pcp.build_jail(j, ents)
         jails.append(j)
@@ -281,13 +326,100 @@ def run_cases(ctx, exe, cases, cnt, repaired, cov, dist, distinct, tag="pcp_serv
     t0 = int(time.time())
     impl = run_batch([exe], [[op_line(j, c)] for j, c in zip(jails, cases)], timeout=1200,
                      env=dict(os.environ, ASAN_OPTIONS="detect_leaks=0"))
-    mlines = ctx.model("pcp", "".join(model_line(c, e, cnt, repaired) + "\n" for c, e in zip(cases, ents_l)))
+    mlines = ctx.model("pcp", "".join(model_line(c, e, cnt, var) + "\n" for c, e in zip(cases, ents_l)))
     judge(ctx, cases, jails, ents_l, [a[0] if a else "" for a, _ in impl], [cr for _, cr in impl], mlines, t0,
-          cov, dist, distinct, tag)
+          cov, dist, distinct, tag, shrinker=lambda c, sig: shrink(ctx, exe, c, sig))
     shutil.rmtree(base, ignore_errors=True)
 
 
-def judge(ctx, cases, jails, ents_l, answers, crashes, mlines, t0, cov, dist, distinct, tag, root_rel=b""):
+def fault_oracle(c, replies, snap):
+    """write faults: every file that fits the limit is received intact whatever happened to the others, and a file
+    that does not fit is reported.  Only for the structured fault cases (`files` known, names unique, dest a dir)."""
+    out = []
+    if not c.get("files") or not c.get("fsz"):
+        return out
+    last = {}
+    for nm, n, data in c["files"]:
+        last[nm] = (n, data)
+    over = sum(1 for nm, n, data in c["files"] if n > c["fsz"])
+    for nm, (n, data) in last.items():
+        r = snap.get(b"o/w/dest/" + nm)
+        if n <= c["fsz"] and (r is None or r["kind"] != "f" or r["data"] != data):
+            out.append(("write-fault:other-file-damaged", "after a write error on another file, %r (%d bytes, fits the "
+                        "limit of %d) was not received intact" % (nm, n, c["fsz"])))
+            break
+    if over and sum(1 for r in replies if r.startswith("E:")) < over:
+        out.append(("write-fault:unreported", "%d file(s) exceed the file size limit of %d bytes but only %d error "
+                    "record(s) were sent" % (over, c["fsz"], sum(1 for r in replies if r.startswith("E:")))))
+    return out
+
+
+def oracle_only(c, f, snap, ents, t0):
+    """the oracles that need no model (used for shrinking): set of signatures"""
+    sigs = set()
+    if "rc" not in f:
+        return sigs
+    if f["rc"] != "0" or f["sig"] != "0" or f["san"] != "0":
+        sigs.add("timeout" if f["sig"] in ("998", "999") else "crash")
+        return sigs
+    replies = pcp.canon_replies(pcp.unhx(f["replies"]))
+    dcanon = pcp.lexnorm(CWD, c["dest"])
+    ch = pcp.changed_paths({e.path: e for e in ents}, snap, t0)
+    if any(not (dcanon == b"" or q == dcanon or q.startswith(dcanon + b"/")) for q in ch):
+        sigs.add(escape_signature(c["stream"]))
+    wf, _ = pcp.analyse(c["stream"])
+    if not wf and not any(r.startswith("E:") for r in replies):
+        sigs.add("malformed-unanswered")
+    for sig, _ in fault_oracle(c, replies, snap):
+        sigs.add(sig)
+    return sigs
+
+
+def shrink(ctx, exe, c, sig):
+    """ddmin over the lines of the stream (capped): a smaller stream with the same oracle signature"""
+    ctx.nshrunk = getattr(ctx, "nshrunk", 0) + 1
+    if ctx.nshrunk > 3 or c.get("files"):
+        return c
+    from vlib.seqrun import ddmin
+    pieces = c["stream"].split(b"\n")
+    pieces = [x + b"\n" for x in pieces[:-1]] + ([pieces[-1]] if pieces[-1] else [])
+    if len(pieces) < 2:
+        return c
+    j = os.path.join(ctx.scratch, "shrink_jail")
+
+    def fails(ps):
+        c2 = dict(c, stream=b"".join(ps))
+        shutil.rmtree(j, ignore_errors=True)
+        ents = jail_entries(c2["prepop"], c2["destmode"], c2.get("bigold", False))
+        pcp.build_jail(j, ents)
+        t0 = int(time.time())
+        (ans, crash), = run_batch([exe], [[op_line(j, c2)]], timeout=60, env=dict(os.environ, ASAN_OPTIONS="detect_leaks=0"))
+        if crash is not None or not ans:
+            return False
+        return sig in oracle_only(c2, pcp.fields(ans[0]), pcp.snapshot(j), ents, t0)
+    try:
+        small = ddmin(pieces, fails, keep_head=0, max_tests=60)
+    except Exception:
+        return c
+    finally:
+        shutil.rmtree(j, ignore_errors=True)
+    return dict(c, stream=b"".join(small))
+
+
+def judge(ctx, cases, jails, ents_l, answers, crashes, mlines, t0, cov, dist, distinct, tag, root_rel=b"",
+          shrinker=None):
+    def small(c, sig):
+        """replay case: shrunk when that is cheap"""
+        if shrinker is None or sig in getattr(ctx, "shrunk_sigs", set()):
+            return case_json(c)
+        ctx.shrunk_sigs = getattr(ctx, "shrunk_sigs", set()) | {sig}
+        if any(fd["property"] == ctx.prop and fd.get("status") == "open" and re.fullmatch(fd["signature"], sig)
+               for fd in ctx.findings.get("findings", [])):
+            return case_json(c)
+        cj2 = case_json(shrinker(c, sig))
+        cj2["shrunk_from_bytes"] = len(c["stream"])
+        return cj2
+
     spec_lines, spec_idx, changed_l = [], [], []
     snaps = []
     for k, c in enumerate(cases):
@@ -330,7 +462,7 @@ def judge(ctx, cases, jails, ents_l, answers, crashes, mlines, t0, cov, dist, di
             sig = "timeout" if f["sig"] in ("998", "999") else "crash"
             ctx.offender(sig, "the receiver %s (rc=%s sig=%s sanitizer=%s): %s" %
                          ("hangs" if sig == "timeout" else "crashes", f["rc"], f["sig"], f["san"],
-                          pcp.unhx(f["err"]).decode("latin-1")[:300]), cj)
+                          pcp.unhx(f["err"]).decode("latin-1")[:300]), dict(small(c, sig), receiver=tag))
             continue
         # ---- oracle: confinement (spec12 on the real changed paths)
         sp, nm = slines[2 * k], slines[2 * k + 1]
@@ -342,9 +474,11 @@ def judge(ctx, cases, jails, ents_l, answers, crashes, mlines, t0, cov, dist, di
             esc = [pcp.unhx(x).decode("latin-1") for x in sp.split()[1].split(",")]
             cj["escaped_paths"] = esc[:10]
             cj["destination_canonical"] = "/" + dcanon.decode("latin-1")
-            ctx.offender(escape_signature(c["stream"]),
-                         "the receiver created or modified %s outside its destination /%s" %
-                         (", ".join("/" + e for e in esc[:4]), dcanon.decode("latin-1")), cj)
+            esig = escape_signature(c["stream"])
+            ctx.offender(esig, "the receiver created or modified %s outside its destination /%s" %
+                         (", ".join("/" + e for e in esc[:4]), dcanon.decode("latin-1")),
+                         dict(small(c, esig), receiver=tag, escaped_paths=esc[:10],
+                              destination_canonical="/" + dcanon.decode("latin-1")))
         elif sp != "ok":
             ctx.disagreement("spec12", "unexpected answer " + sp[:200], cj)
         # ---- oracle: malformed input is answered with an error record
@@ -352,7 +486,12 @@ def judge(ctx, cases, jails, ents_l, answers, crashes, mlines, t0, cov, dist, di
             dist["malformed"] += 1
             if not any(r.startswith("E:") for r in replies):
                 ctx.offender("malformed-unanswered", "a stream violating the record grammar got no error record "
-                             "(replies %s)" % ",".join(replies[:20]), cj)
+                             "(replies %s)" % ",".join(replies[:20]), dict(small(c, "malformed-unanswered"), receiver=tag))
+        # ---- oracle: write faults are reported and do not damage the files that follow
+        if c.get("fsz"):
+            dist["write_fault_cases"] = dist.get("write_fault_cases", 0) + 1
+            for fsig, fwhat in fault_oracle(c, replies, snaps[k]):
+                ctx.offender(fsig, fwhat, cj)
         if any(not (r == "A" or r.startswith("E:")) for r in replies) or "E:unterminated" in replies:
             ctx.offender("reply-garbled", "the reply stream is not a sequence of acknowledgements and error records: %s"
                          % ",".join(replies[:20]), cj)
@@ -385,18 +524,47 @@ def judge(ctx, cases, jails, ents_l, answers, crashes, mlines, t0, cov, dist, di
 
 
 def probe_variant(ctx, exe):
-    """which receiver is in /repo: unchanged (no name validation) or repaired (names with `/`, `..` rejected)?"""
-    j = os.path.join(ctx.scratch, "probe_jail")
-    shutil.rmtree(j, ignore_errors=True)
-    pcp.build_jail(j, jail_entries(False, 0o755))
-    c = C(b"C0644 0 ../pdshverif_probe\n\0", prepop=False)
-    (ans, crash), = run_batch([exe], [[op_line(j, c)]], env=dict(os.environ, ASAN_OPTIONS="detect_leaks=0"))
-    escaped = os.path.exists(os.path.join(j, "o/w/pdshverif_probe"))
-    shutil.rmtree(j, ignore_errors=True)
-    return 0 if escaped else 1
+    """which receiver is in /repo?  Probed, never configured:
+    rule 0 = no name validation (code as found), 1 = names with `/` and the name `..` rejected, 2 = scp rule (also
+    the empty name and `.`); dch = with -p a new directory is chmod'ed after mkdir (repair of F11-DIRMODE-SETID)"""
+    def one(stream, p=0):
+        j = os.path.join(ctx.scratch, "probe_jail")
+        shutil.rmtree(j, ignore_errors=True)
+        pcp.build_jail(j, jail_entries(False, 0o755))
+        c = C(stream, prepop=False, p=p)
+        (ans, crash), = run_batch([exe], [[op_line(j, c)]], env=dict(os.environ, ASAN_OPTIONS="detect_leaks=0"))
+        snap = pcp.snapshot(j)
+        shutil.rmtree(j, ignore_errors=True)
+        f = pcp.fields(ans[0]) if ans else {}
+        return pcp.canon_replies(pcp.unhx(f.get("replies", "-"))), snap
+    _, snap = one(b"C0644 0 ../pdshverif_probe\n\0")
+    if b"o/w/pdshverif_probe" in snap:
+        rule = 0
+    else:
+        r1, _ = one(b"C0644 0 \n\0")
+        r2, _ = one(b"D0755 0 .\nE\n")
+        rej = [any("badName" in x for x in r) for r in (r1, r2)]
+        rule = 2 if any(rej) else 1
+    _, snap = one(b"D6755 0 pd\nE\n", p=1)
+    dch = int(snap.get(b"o/w/dest/pd", {}).get("mode") == 0o6755)
+    return dict(rule=rule, dch=dch)
 
 
-def run_binary(ctx, cases, cnt, repaired, cov, dist, distinct):
+def variant_text(var):
+    return "names: %s; chmod after mkdir with -p: %s" % (
+        ["no validation (code as found)", "`/` and `..` rejected", "scp rule"][var["rule"]], "yes" if var["dch"] else "no")
+
+
+def child_setup(um, fsz):
+    import resource
+    import signal
+    os.umask(um)
+    if fsz:
+        signal.signal(signal.SIGXFSZ, signal.SIG_IGN)
+        resource.setrlimit(resource.RLIMIT_FSIZE, (fsz, fsz))
+
+
+def run_binary(ctx, cases, cnt, var, cov, dist, distinct):
     """the scratch-built `pdcp -z DEST` reading stdin (shipped flags, main.c:_pcp_remote_server); no chroot here, so
     only streams with at most two `..` are used and the working directory is three levels inside the case dir"""
     repo = ctx.repo_build()
@@ -414,7 +582,7 @@ def run_binary(ctx, cases, cnt, repaired, cov, dist, distinct):
     jails, ents_l, answers, crashes = [], [], [], []
     t0 = int(time.time())
     for k, c in enumerate(use):
-        ents = jail_entries(c["prepop"], c["destmode"])
+        ents = jail_entries(c["prepop"], c["destmode"], c.get("bigold", False))
         j = os.path.join(base, "j%d" % k)
         pcp.build_jail(j, ents)
         jails.append(j)
@@ -426,7 +594,8 @@ def run_binary(ctx, cases, cnt, repaired, cov, dist, distinct):
             if args is None:
                 raise ValueError
             p = subprocess.run(args, input=c["stream"], stdout=subprocess.PIPE, stderr=subprocess.PIPE, timeout=30,
-                               cwd=os.path.join(j, CWD.decode()), preexec_fn=lambda um=c["um"]: os.umask(um))
+                               cwd=os.path.join(j, CWD.decode()),
+                               preexec_fn=lambda um=c["um"], fsz=c.get("fsz", 0): child_setup(um, fsz))
             answers.append("rc=%d sig=%d san=0 replies=%s err=%s" % (max(p.returncode, 0), max(-p.returncode, 0),
                                                                     hx(p.stdout), hx(p.stderr[-300:])))
         except subprocess.TimeoutExpired:
@@ -436,7 +605,7 @@ def run_binary(ctx, cases, cnt, repaired, cov, dist, distinct):
         crashes.append(None)
     keep = [i for i, a in enumerate(answers) if a is not None]
     use, jails, ents_l, answers, crashes = ([x[i] for i in keep] for x in (use, jails, ents_l, answers, crashes))
-    mlines = ctx.model("pcp", "".join(model_line(c, e, cnt, repaired) + "\n" for c, e in zip(use, ents_l)))
+    mlines = ctx.model("pcp", "".join(model_line(c, e, cnt, var) + "\n" for c, e in zip(use, ents_l)))
     dist["binary_cases"] = dist.get("binary_cases", 0) + len(use)
     judge(ctx, use, jails, ents_l, answers, crashes, mlines, t0, cov, dist, distinct, "pdcp -z (scratch build)")
     shutil.rmtree(base, ignore_errors=True)
@@ -456,7 +625,9 @@ def run(ctx):
                    "inside, 255/256/4000/8200 bytes), sizes (0..3*BUFSIZ+1, mismatching the data, 20 digits), modes "
                    "(all 12 bits, malformed), times (usec out of range, overflow), bad response bytes, then truncation/"
                    "byte flip/deletion/insertion, plus pure garbage; destination given as dir, dir/, absolute, "
-                   "subdir, existing file, missing name; -p/-y/umask/socket-or-pipes varied; jail around the "
+                   "subdir, existing file, missing name; -p/-y/umask/socket-or-pipes varied; about 10% of the cases run "
+                   "the receiver under a file size limit (write faults in the middle of multi-block files, followed by "
+                   "files that fit); jail around the "
                    "destination holds victim files/dirs.  non-trivial = the stream starts with >= 1 syntactically "
                    "valid control record; distinct = distinct (stream, dest, options)"}
     dist = {"reply_classes": {}, "escapes": 0, "malformed": 0, "crash": 0, "model_mismatch": 0}
@@ -464,8 +635,8 @@ def run(ctx):
     if ok:
         blk = int(subprocess.run([exe, "--blksize", ctx.scratch], stdout=subprocess.PIPE).stdout.decode().strip() or 0)
         cnt = ((blk + pcp.BUFSIZ - 1) // pcp.BUFSIZ) * pcp.BUFSIZ or pcp.BUFSIZ
-        repaired = probe_variant(ctx, exe)
-        dist["receiver_variant"] = "repaired (names validated)" if repaired else "unchanged (no name validation)"
+        var = probe_variant(ctx, exe)
+        dist["receiver_variant"] = variant_text(var)
         dist["bp_cnt"] = cnt
         ctx.log("receiver variant:", dist["receiver_variant"], "bp->cnt =", cnt)
         n = 1500 if ctx.quick() else 40000
@@ -476,20 +647,22 @@ def run(ctx):
             if "stream_hex" in rc:
                 cases.insert(0, C(bytes.fromhex(rc["stream_hex"]), dest=rc["dest"].encode("latin-1"),
                                   p=rc["preserve"], y=rc["target_is_dir"], um=int(rc["umask"], 8), fd=rc["fdmode"],
-                                  prepop=rc["prepopulated"], destmode=int(rc["destmode"], 8)))
+                                  prepop=rc["prepopulated"], destmode=int(rc["destmode"], 8),
+                                  fsz=rc.get("file_size_limit", 0), bigold=rc.get("bigold", False)))
         cases += [gen_case(rng) for _ in range(n)]
         for i in range(0, len(cases), 4000):
-            run_cases(ctx, exe, cases[i:i + 4000], cnt, repaired, cov, dist, distinct)
+            run_cases(ctx, exe, cases[i:i + 4000], cnt, var, cov, dist, distinct)
         nb = 60 if ctx.quick() else 1500
         if os.environ.get("VERIF_C12_BINARY", "1") != "0":
-            run_binary(ctx, CORPUS + [gen_case(rng) for _ in range(nb)], cnt, repaired, cov, dist, distinct)
+            run_binary(ctx, CORPUS + [gen_case(rng) for _ in range(nb)], cnt, var, cov, dist, distinct)
     cov["distinct_nontrivial"] = len(distinct)
     cov["distribution"] = dist
     cov["traces_validated_against_impl"] = cov["evaluations"]
     return ctx.finish(
         LEVEL, cov,
         assumptions=["no symbolic links below or around the destination (C12 reading, DESIGN section 6)",
-                     "the receiver runs as root: permission checks never fail; no I/O errors (disk full, EIO)",
+                     "the receiver runs as root: permission checks never fail; I/O errors only as injected write faults "
+                     "(RLIMIT_FSIZE with SIGXFSZ ignored: short write / EFBIG, ftruncate EFBIG)",
                      "Linux path resolution, mkdir/open(O_CREAT)/chmod/utimes/ftruncate semantics as in Pcp/FS.lean",
                      "nothing else modifies the file system during the copy",
                      "st_blksize of the destination file system rounds up to bp->cnt, a multiple of BUFSIZ"],
